@@ -100,7 +100,7 @@ fn main() {
 
 fn run_check(id: &str, tier: Tier) -> i32 {
     match id {
-        "C01" | "C05" | "C06" | "C07" => {
+        "C01" | "C03" | "C05" | "C06" | "C07" => {
             let mut c = Check::new(id, tier, "model_checking");
             c.assumptions = vec![
                 "bounded: alphabets, transaction lengths and history depths as listed per scenario in coverage.scenarios".into(),
